@@ -461,6 +461,52 @@ def w_rng(job):
         for r_, n in res['hits']: part.violation(f'{call}|{b},rng-fault|plaintext-on-disk', f'an RNG request failed during {call}; a value given to the call is in clear in a {r_} file', dict(w, file=r_, length=n))
     shutil.rmtree(base, ignore_errors=True); return part
 
+# ---------------------------------------------------------------- the user logs out (another thread) while a call is storing a private object
+def w_logout_race(job):
+    """two threads, locking enabled (application mutex callbacks with stalls): one stores private token objects with values the driver knows -- C_UnwrapKey, C_CreateObject, C_CopyObject
+    public -> private, C_SetAttributeValue -- while the other logs the user out and in again.  A call that loses its login half-way may fail, or store nothing; it must not leave the
+    plaintext of the value in the token directory.  Afterwards every file is searched for every known value."""
+    from ck import CK
+    from p11client import Exec, mkconf
+    from harness import SAN_ENV
+    import refcrypt as R
+    ck = CK(job['hdr']); part = Part(); rnd = random.Random(job['seed']); b = job['backend']; d = os.path.join(job['scratch'], 'lr-%s-%d' % (b, job['seed'])); shutil.rmtree(d, ignore_errors=True); os.makedirs(d)
+    x = None
+    try:
+        x = Exec(job['paths']['asan']['exe'], job['paths']['asan']['lib'], mkconf(d, b), ck, env=dict(SAN_ENV), stderr=d + '/stderr.log'); x.timeout = 300
+        assert x.call('C_Initialize', locking='cb', **{'yield': {'seed': job['seed'], 'p': job['yield_p'], 'maxus': job['yield_us']}})['rv'] == 0
+        slot = x.call('C_GetSlotList', count=8)['slots'][-1]; assert x.call('C_InitToken', slot=slot, pin=RSO.hex(), label=b'lr'.hex())['rv'] == 0
+        s0 = x.call('C_OpenSession', slot=slot)['h']; assert x.call('C_Login', s=s0, user=0, pin=RSO.hex())['rv'] == 0 and x.call('C_InitPIN', s=s0, pin=RUSER.hex())['rv'] == 0 and x.call('C_Logout', s=s0)['rv'] == 0
+        assert x.call('C_Login', s=s0, user=1, pin=RUSER.hex())['rv'] == 0
+        wkv = rnd.randbytes(32); r = x.call('C_CreateObject', s=s0, tmpl=x.T({'CKA_CLASS': ck.CKO_SECRET_KEY, 'CKA_KEY_TYPE': ck.CKK_AES, 'CKA_TOKEN': True, 'CKA_PRIVATE': False, 'CKA_VALUE': wkv, 'CKA_WRAP': True, 'CKA_UNWRAP': True, 'CKA_LABEL': b'wrapper'})); assert r['rv'] == 0; hw = r['h']
+        src = x.call('C_CreateObject', s=s0, tmpl=x.T({'CKA_CLASS': ck.CKO_DATA, 'CKA_TOKEN': False, 'CKA_PRIVATE': False, 'CKA_LABEL': b'copy-source', 'CKA_VALUE': b'public source value'})); assert src['rv'] == 0
+        tgt = x.call('C_CreateObject', s=s0, tmpl=x.T({'CKA_CLASS': ck.CKO_DATA, 'CKA_TOKEN': True, 'CKA_PRIVATE': True, 'CKA_LABEL': b'set-target', 'CKA_VALUE': rnd.randbytes(24)})); assert tgt['rv'] == 0
+        known = []; S1 = [{'fn': 'C_OpenSession', 'slot': slot}]; sref = '$0.h'
+        for i in range(job['iters']):
+            v = rnd.randbytes(32); known.append(('C_UnwrapKey', v)); blob = R.kw_wrap(R.AES(wkv), v)
+            S1.append({'fn': 'C_UnwrapKey', 's': sref, 'mech': x.M('CKM_AES_KEY_WRAP'), 'ukey': hw, 'wrapped': blob.hex(), 'tmpl': x.T({'CKA_CLASS': ck.CKO_SECRET_KEY, 'CKA_KEY_TYPE': ck.CKK_GENERIC_SECRET, 'CKA_TOKEN': True, 'CKA_PRIVATE': True, 'CKA_LABEL': b'u%d' % i, 'CKA_SENSITIVE': False, 'CKA_EXTRACTABLE': True})})
+            v = rnd.randbytes(40); known.append(('C_CreateObject', v)); S1.append({'fn': 'C_CreateObject', 's': sref, 'tmpl': x.T({'CKA_CLASS': ck.CKO_DATA, 'CKA_TOKEN': True, 'CKA_PRIVATE': True, 'CKA_LABEL': b'c%d' % i, 'CKA_VALUE': v})})
+            v = rnd.randbytes(40); known.append(('C_CopyObject', v)); S1.append({'fn': 'C_CopyObject', 's': sref, 'o': src['h'], 'tmpl': x.T({'CKA_TOKEN': True, 'CKA_PRIVATE': True, 'CKA_LABEL': b'k%d' % i, 'CKA_VALUE': v})})
+            v = rnd.randbytes(40); known.append(('C_SetAttributeValue', v)); S1.append({'fn': 'C_SetAttributeValue', 's': sref, 'o': tgt['h'], 'tmpl': x.T({'CKA_VALUE': v})})
+        S2 = [{'fn': 'C_OpenSession', 'slot': slot}]
+        for i in range(job['iters'] * 3): S2 += [{'fn': 'C_Logout', 's': '$0.h'}, {'fn': 'C_Login', 's': '$0.h', 'user': 1, 'pin': RUSER.hex()}]
+        r = x.raw({'fn': 'threads', 'scripts': [S1, S2], 'timeout': 300}); x.call('C_Finalize'); x.close(); x = None
+        rvs = {}
+        for q, st in zip(S1, r['results'][0]): rvs.setdefault(q['fn'], {}).setdefault(ck.rv(st['rv']), 0); rvs[q['fn']][ck.rv(st['rv'])] += 1
+        blobs = [(role(p), open(p, 'rb').read()) for p, st_ in persist.all_files(d + '/tokens') if stat.S_ISREG(st_.st_mode)]
+        for fn, v in known:
+            part.case(('logout-race', b, fn), nontrivial=True, n=1)
+            for rl, data in blobs:
+                if v in data: part.violation(f'{fn}|{b},user-logged-out-by-another-thread-during-the-call|plaintext-on-disk', f'the user was logged out by another thread while {fn} was storing a private object: the value is in clear in a {rl} file', {'backend': b, 'seed': job['seed'], 'file_role': rl, 'return_codes': rvs.get(fn)}); break
+        part.count('logout_race_calls', len(S1) - 1); part.observe('return codes of storing calls raced by C_Logout', {b: rvs}, cap=4)
+    except AssertionError as e: part.inconc(f'logout-race set-up failed ({b}): {e!r}')
+    except Died as e: part.observe('side:C17/C18 library terminated the host in the logout race', {'kind': e.kind(), 'fn': e.fn}); part.inconc(f'executor died in the logout race ({b})')
+    except Hang: part.inconc(f'hang in the logout race ({b})')
+    finally:
+        if x is not None: x.kill()
+        shutil.rmtree(d, ignore_errors=True)
+    return part
+
 # ---------------------------------------------------------------- permission bits for every spelling of objectstore.umask
 def w_perm(job):
     """two tokens; create / generate / copy / set / destroy, re-initialisation, restart; every file and directory below the token
@@ -526,7 +572,7 @@ def w_perm(job):
     finally: L.stop()
     shutil.rmtree(d, ignore_errors=True); return part
 
-def dispatch(job): return {'rng': w_rng, 'perm': w_perm}.get(job['kind'], w_history)(job)
+def dispatch(job): return {'rng': w_rng, 'perm': w_perm, 'logout-race': w_logout_race}.get(job['kind'], w_history)(job)
 
 def run(ctx):
     ctx.rule = ('one evaluation = one (recorded plaintext, directory scan) pair: after every step every file below the token directory is searched for every plaintext recorded so far '
@@ -545,6 +591,7 @@ def run(ctx):
     for backend in ('file', 'db'):
         for sp in SPELLINGS:
             for cfg in cfgs: jobs.append(dict(common, kind='perm', backend=backend, umask=sp, cfg=cfg))
+    for i in range(ctx.q(6, 24)): jobs.append(dict(common, kind='logout-race', backend='file' if i % 3 else 'db', seed=ctx.seed * 1000 + 700 + i, iters=ctx.q(12, 25), yield_p=[0.2, 0.04, 0.5][i % 3], yield_us=[150, 8000, 40][i % 3], umask='default', cfg='asan'))
     jobs.sort(key=lambda j: 0 if j.get('systematic') else 1)          # the long jobs first
     for part in pmap(dispatch, jobs, ctx.nproc): ctx.merge(part)
     ctx.assumptions += ['scans look for verbatim byte strings of >= 16 bytes (dates: 8 bytes from ~3 million values); transformed leaks are out of reach',
